@@ -78,7 +78,8 @@ def saslprep(data: str, prohibit_unassigned_code_points: bool = True) -> str:
     data = unicodedata.ucd_3_2_0.normalize("NFKC", data)
 
     in_table_d1 = stringprep.in_table_d1
-    if in_table_d1(data[0]):
+    # The mapping step may leave nothing at all (e.g. a lone soft hyphen).
+    if data and in_table_d1(data[0]):
         if not in_table_d1(data[-1]):
             # RFC3454, Section 6, #3. If a string contains any
             # RandALCat character, the first and last characters
